@@ -3,7 +3,7 @@
 import json, os
 V = os.path.dirname(os.path.dirname(os.path.abspath(__file__)))
 props = [json.loads(l) for l in open(os.path.join(V, "properties.jsonl"))]
-REPO_HOOKS = ["7e029ae"]  # commits in /repo that add guarded hooks
+REPO_HOOKS = ["7e029ae", "0df1db7"]  # commits in /repo that add guarded hooks
 
 CHECKS = {
  "C20": dict(
@@ -95,6 +95,25 @@ CHECKS = {
         "functions once per object and cannot be linked for programs with imports. The -O2 copy-elision defect is a known finding.",
    technique="TLA+ executable semantics as the single reference behaviour + TLC trace validation of every build configuration",
    ref="§4 C11"),
+ "C03": dict(
+   text="Frontend.tla states the frontend as a total function: one call of parser.Parse ends in Returned(module | error); Panic, a fatal runtime error, a kill by a resource limit, "
+        "a timeout and a parser-loop iteration without progress (hook H2 in the main and block loops) are not actions of the module. Seed programs (the repository's corpus, "
+        "examples, generated programs, import arrangements with missing files, directories, self- and mutual imports, clashes between imports) and all their single token mutants "
+        "(delete, duplicate, swap, splice; seeded pairs) and seeded byte mutants are parsed in sacrificial workers; TLC validates one event per input. A failing input is re-run "
+        "alone before it counts.",
+   note="Mutation distance <= 2, quick samples 60 mutants + 8 byte mutants per seed, thorough takes all single mutants. 'Unbounded memory growth' is only observed as the 8 GiB limit. "
+        "Findings are keyed by the crash site (innermost repository frames), so another input reaching a new site is still reported.",
+   technique="TLA+ totality/progress specification + TLC trace validation of the real frontend over enumerated mutants",
+   ref="§4 C03"),
+ "C07": dict(
+   text="Frontend.tla states the diagnostics protocol over what a parse exposes: failed (Ast.Faulty of the root, of any module, the errored flag of every nested parser - hook H2) "
+        "<=> an error-level diagnostic was delivered, warnings alone never fail; every diagnostic names an input file and a range inside that file's text with start <= end; the "
+        "excerpt renderer prints every diagnostic; kddp exits 0 and leaves an artefact exactly when the compilation did not fail (seeded sample through the CLI). The inputs are "
+        "those of C03; TLC evaluates the invariants on every recorded parse.",
+   note="Same bounds as C03. Message texts are not compared. Open findings (ranges that start after they end, the renderer panicking on them, alias-local coordinates with the pseudo file "
+        "'Alias') are keyed by invariant, failure kind and diagnostic code.",
+   technique="TLA+ diagnostics-protocol invariants + TLC trace validation of the real frontend and CLI",
+   ref="§4 C07"),
 }
 PENDING = {}
 
